@@ -200,6 +200,30 @@ Proof.
   rewrite D1, D2, He, Hc. reflexivity.
 Qed.
 
+(* the one content-dependent stop, at the level of the whole run: a line over the reader's limit ends a local job with status 1, and what is at the
+   destination is exactly the redaction of the lines before it - nothing of the long line, nothing of what follows *)
+Theorem job_toolong : forall a w m fs1 fs2 enc data e bar,
+  decide (flags_of a w) = CAccept m -> m <> MAtlas ->
+  stage_out a w = Some fs1 -> stage_key a w fs1 = Some (fs2, enc) ->
+  (nonempty_s (a_out a) = true -> a_encrypt a && nonempty_s (a_keyfile a) = true -> a_keyfile a <> a_out a) ->
+  local_input a w m fs2 = Some (data, e, bar) ->
+  (forall i, w_writer w i = Accept) -> snd (scan data e) = STooLong ->
+  j_status (job tb cs a w) = Exit1 /\
+  dest a (job tb cs a w) = List.concat (map (emit tb cs (a_cfg a) enc) (fst (scan data e))).
+Proof.
+  intros a w m fs1 fs2 enc data e bar Hd Hm E1 E2 Hko Hin Hw Hs. unfold job. rewrite Hd, E1, E2. unfold stage_run.
+  assert (Erun : run_io tb cs (a_cfg a) enc data e (w_writer w) bar =
+                 (RScanErr STooLong, List.concat (map (emit tb cs (a_cfg a) enc) (fst (scan data e))))).
+  { rewrite (run_io_accepting _ _ _ _ _ _ Hw). apply toolong_is_error. exact Hs. }
+  assert (Hat : nonempty_s (a_out a) = true -> exists mm, fs2 (a_out a) = FFile [] mm).
+  { intros Ho. unfold stage_out in E1. rewrite Ho in E1. destruct (create_at _ _ _ E1) as [mm Hmm].
+    exists mm. unfold stage_key in E2. destruct (a_encrypt a && nonempty_s (a_keyfile a)) eqn:Ek.
+    - destruct (run_key _ _) as [k' [key|]]; inversion E2; subst. rewrite upd_other; [exact Hmm|]. intros E. symmetry in E. exact (Hko Ho eq_refl E).
+    - inversion E2; subst. exact Hmm. }
+  destruct m; [congruence| |]; rewrite Hin, Erun; (split; [unfold deliver; destruct (nonempty_s (a_out a)); reflexivity|]);
+    rewrite dest_deliver by exact Hat; reflexivity.
+Qed.
+
 (* the same bytes whichever channel delivers the data and wherever the output goes: two plain local jobs with the
    same redaction configuration whose input channels deliver the same data leave the same bytes at their destinations *)
 Theorem job_channel_independent : forall a1 w1 m1 a2 w2 m2 data bar1 bar2,
